@@ -19,11 +19,28 @@ def run(v, tier):
     # byte strings = what the REAL serializer emitted for TLC-generated call sequences (C04 model) ...
     seqs = gen.explore(v, 'C14', 'c14-model', 3 if quick else 4)
     traces = gen.replay_sequences(seqs)
-    inputs = {}
+    inputs, orig = {}, {}
+
+    def rename(t, sm):       # tracker symbols (bridge numbers) -> wire ids, as logged by the serializer itself
+        if t['t'] == 'sym':
+            return dict(t, i=sm.get(t['i'], t['i']))
+        out = dict(t)
+        for f in ('l', 'r', 'p', 'g'):
+            if f in t and isinstance(t[f], dict):
+                out[f] = rename(t[f], sm)
+        if t['t'] == 'inst':
+            out['d'] = [[k, rename(x, sm)] for k, x in t['d']]
+        return out
     for t in traces:
         bs = [b for e in t['events'] if e['out'] == 'ok' for b in e['bytes']]
         if bs and t['predicted_good'] and not any(e['m'].startswith('into_') for e in t['events']):
-            inputs[(t['phase'], tuple(bs))] = gen.model_claims() if t['phase'] == 'proof' else []
+            key = (t['phase'], tuple(bs))
+            inputs[key] = gen.model_claims() if t['phase'] == 'proof' else []
+            sm = {b: i for e in t['events'] for b, i in e['syms']}
+            last = t['events'][-1]
+            npub = sum(1 for e in t['events'] if e['m'].startswith('publish'))
+            if last['top']['k'] in ('pat', 'prf'):
+                orig[key] = {'len': last['len'], 'top': {'k': last['top']['k'], 'p': rename(last['top']['p'], sm)}, 'has': True}
     # ... and for whole shipped modules, per phase (claims of the proof phase = the module's claims)
     for t in gen.module_traces(['propositional', 'substitution', 'small_theory'] + ([] if quick else ['kore_lemmas', 'definedness']), optimize_opts=(False, True)):
         for ph, bs in zip(('gamma', 'claim', 'proof'), t['files']):
@@ -47,8 +64,10 @@ def run(v, tier):
     allreq = reqs + mal
     import lem
     res = lem.run_applications(allreq)
+    none = {'len': 0, 'top': {'k': 'none', 'p': pi2v.EV(0)}, 'has': False}
     cases = [{'phase': q['phase'], 'bytes': q['bytes'], 'claims': q['claims'], 'out': 'ok' if r['out'] == 'ok' else 'raise',
-              'exc': r['out'], 'rebytes': r['rebytes'], 'final': r['final']} for q, r in zip(allreq, res)]
+              'exc': r['out'], 'rebytes': r['rebytes'], 'final': r['final'],
+              'orig': orig.get((q['phase'], tuple(q['bytes'])), none) if k < len(reqs) else none} for k, (q, r) in enumerate(zip(allreq, res))]
     v.cov['valid_streams'] = len(reqs)
     v.cov['malformed_variants'] = len(mal)
     v.sample({'phase': cases[0]['phase'], 'bytes': cases[0]['bytes'], 'out': cases[0]['exc']})
